@@ -25,6 +25,8 @@ func main() {
 		rep = suiteSen(*tier, *seed, *model)
 	case "C11":
 		rep = suiteEvaluators(*tier, *seed, *model)
+	case "C17":
+		rep = suiteMatchDoc(*tier, *seed, *model)
 	case "C19":
 		rep = suiteDiff(*tier, *seed, *model)
 	case "C14":
